@@ -50,6 +50,7 @@ def encodeZSet (z : ZSet) : Bytes :=
 
 def encodeVal : Val → Bytes
   | .str v => v
+  | .strNil => []
   | .list l => encodeList l
   | .hash h => encodeHash h
   | .set s => encodeSet s
